@@ -69,3 +69,8 @@ CHECKS["C01"] = (
     "The unmodified library runs through every layer against an independently written V2/V3 model device on the simulated network: apply direction (device state decoded by the vendor-layout decoder must equal the applied state, untouched fields unchanged, nothing rejected, right device id on every packet) and read-back direction by a fresh client on a fresh connection. Delivery schedules cut V3 streams anywhere (incl. byte-by-byte), coalesce packets and insert duplicate/unsolicited frames. One recorded finding (non-reply frame ends the exchange) is classified by re-running the failing case with simultaneous delivery and excluded from violation reports.",
     "V2 replies are delivered one packet per segment (V2 has no reassembly by design). Devices answer within the 2 s read timeout in this property (lateness is C08).",
     "DESIGN.md 3/C01")
+CHECKS["C08"] = (
+    "fault_enumeration", "exhaustive enumeration of retry/answer-delay patterns against a reference model on the virtual clock; exhaustive single and pairwise fault injection with recovery oracle; Hypothesis fault sequences",
+    "Part A enumerates every pattern of answered/unanswered transmissions and answer delays around the 2 s grid for retry budgets 1..4 on V2 and V3 and compares transmission count, exact virtual return time and outcome with a ten-line reference model of the retry loop (plus the device-level consequences). Part B injects every single fault and ordered pair of faults (silence, silence incl. handshake, error packet, garbage, peer close, refused and hanging connect, cancellation at each protocol phase) on fresh and established connections and requires the next clean exchange to succeed without user intervention. Part C searches longer sequences.",
+    "Timing is exact because the harness owns the clock; handshake replies are prompt or never; cancellation points are drawn by protocol phase.",
+    "DESIGN.md 3/C08")
